@@ -278,7 +278,7 @@ def c08_replay(chk, body):
 
 # ------------------------------------------------------------------------------------------ C18
 
-C18_PINMODES = ["none", "two", "three", "all", "both", "spread", "sel", "nssel", "peers"]
+C18_PINMODES = ["none", "two", "three", "all", "both", "spread", "sel", "nssel", "peers", "advpairs"]
 C18_LOAD = {"quick": {"cfg": "ConfigLoadMC_q.cfg", "reps": 20}, "thorough": {"cfg": "ConfigLoadMC_t.cfg", "reps": 60}}
 # reconciler walks: (cfg, rec, pin, quick sample of transitions, idle reconciliations per step)
 C18_RECON = {"quick": [("pool3", "pool", 3, 400, 12, "record"), ("pool2", "pool", 2, 250, 12, "record"),
@@ -315,7 +315,7 @@ def c18_generate_load(chk, cfgfile):
         return pm, res, snaps, perms
 
     out, perms = [], None
-    with concurrent.futures.ThreadPoolExecutor(max_workers=9) as ex:
+    with concurrent.futures.ThreadPoolExecutor(max_workers=10) as ex:
         for pm, res, snaps, pr in ex.map(one, C18_PINMODES):
             chk.add_model_run("%s:%s" % (cfgfile, pm), res)
             if res.violated:
@@ -403,7 +403,7 @@ def c18_load_signatures(name, o, objs):
     if base == "C18.AcceptanceOrderFree":
         bad = [k["kind"] for k in m["kinds"] + [m["comb"]] if (k["nrej"] if m["first_ok"] else k["nacc"])]
         sn = o["snap"]
-        what = sn["bad"] if sn.get("kind", "grid") == "grid" else "peers-slice"
+        what = sn["bad"] if sn.get("kind", "grid") == "grid" else sn["kind"] + "-slice"
         return ["%s|bad=%s|kind=%s%s" % (base, what, ",".join(bad), sfx)]
     return [base + sfx]
 
@@ -436,6 +436,7 @@ def c18_run_load(chk):
     chk.cov["load_snapshots_3plus_of_a_kind"] = sum(1 for o in obs if any(k["n"] >= 3 for k in o["modes"][0]["kinds"]))
     chk.cov["load_snapshots_multivalued_fields"] = sum(1 for s in scens if s["snap"].get("adv") == "multi")
     chk.cov["load_snapshots_peers_slice"] = sum(1 for s in scens if s["snap"].get("kind") == "peers")
+    chk.cov["load_snapshots_advpairs_slice"] = sum(1 for s in scens if s["snap"].get("kind") == "advpairs")
     chk.cov["traces_validated_against_impl"] += len(obs)
     chk.cov["evaluations"] += nlines
     chk.cov["distinct_nontrivial"] += nontrivial
